@@ -398,6 +398,19 @@ theorem zero_residual_and_sane_is_genuine (s : EqSys.EqSystem) (hs : EqSys.Homog
       simp
     exact (ChemModel.C07.log_zero_iff s hs prec small c p r hpos hK (by rw [hlogc]; exact hlog)).mp hzero
 
+/-- **warm_start_keeps_initial_totals.**  Whatever starting guess `x0` is passed to `root` / `_solve` (none, a previous solution, the
+    solution of ANOTHER composition — titration / series walking), the parameter vector handed to the solver starts with the initial
+    composition: the `init_concs` half that the residual functions read (`initConcsOf`, C07) is `init`, and the constants half is the
+    reactions' constants.  With `zero_residual_and_sane_is_genuine` (take `p = (rootArgs init x0 K).2`): a zero of the residual carries the
+    elements and the charge of `init`, never those of the guess. -/
+theorem warm_start_keeps_initial_totals (s : EqSys.EqSystem) (init K : List ℝ) (x0 : Option (List ℝ)) (hlen : init.length = s.ns) :
+    EqSys.initConcsOf s (rootArgs init x0 K).2 = init ∧ EqSys.eqParamsOf s (rootArgs init x0 K).2 = K ∧
+    (rootArgs init x0 K).1 = x0.getD init := by
+  refine ⟨?_, ?_, ?_⟩
+  · simp [rootArgs, EqSys.initConcsOf, ← hlen]
+  · simp [rootArgs, EqSys.eqParamsOf, ← hlen]
+  · cases x0 <;> rfl
+
 /-! ### non-vacuity: concrete instances on which the hypotheses hold -/
 
 /-- NaCl(s) ⇌ Na⁺ + Cl⁻ with (Na⁺, Cl⁻, NaCl(s)) = (1, 2, 4): everything dissolves to (5, 6, 0) (the repo's own test case) -/
